@@ -1,3 +1,4 @@
+import GV.Props.C01
 import GV.Props.C12
 import GV.Props.C15
 import GV.Props.C16
